@@ -109,8 +109,8 @@ PROPS['C06'] = dict(
     design='DESIGN.md 3/C06',
     technique='contract-based deductive verification (Verus) of the directive-free emission arms (copy exactly the bytes of their own leaf, identity origin) plus once-only obligations',
     level_text='Deductive proof that the NotDirective, Comment, StringLiteral and EscapedIdentifier arms append exactly the bytes of the locate they copy and record the identical source range, and that kept-directive arms suppress their trailing white space so nothing is emitted twice.',
-    level_note=ARMS_NOTE + ' Two arms genuinely emit trailing trivia twice (known findings K3, K4, frozen by golden files). Partial: the fixed-point clause is not decided; of the rejection conditions, position-wise acceptance of directive-free text by the run production is decided by a two-byte look-ahead analysis (gvc.pptotal), the lexers of comments, strings and escaped identifiers are only covered by a BOUNDED stand-in (every text over an 8-symbol alphabet up to 5 bytes, 7 in the thorough tier, through the real preprocess_str; labelled bounded, not counted as proved).',
-    not_covered=['fixed point of successful runs', 'that a terminated string / comment / escaped identifier is always accepted by its own production'],
+    level_note=ARMS_NOTE + ' Two arms genuinely emit trailing trivia twice (known findings K3, K4, frozen by golden files). Partial: the fixed-point clause is not decided; of the rejection conditions, position-wise acceptance of directive-free text by the run production is decided by a two-byte look-ahead analysis (gvc.pptotal), the lexers of comments, strings and escaped identifiers are decided by generated position-wise obligations (gvc.lexers: a block comment runs to the FIRST `*/` and may be empty, a one-line comment to its newline, a string literal to the first unescaped quote with a backslash escaping exactly one character, an escaped identifier to the next white space; all 256 x 257 (byte, next byte / end) classes), and their composition in the run production additionally by a BOUNDED stand-in (every text over an 8-symbol alphabet up to 5 bytes, 7 in the thorough tier, through the real preprocess_str; labelled bounded, not counted as proved).',
+    not_covered=['fixed point of successful runs', 'the lexers of comments, strings and escaped identifiers are decided position-wise by gvc.lexers under A-nom (semantics of tag / is_not / take / many0 / alt / peek / not as documented); that the whole run production composes them is the bounded stand-in c06bound'],
 )
 PROPS['C10'] = dict(
     title='include',
@@ -193,7 +193,7 @@ PROPS['C17'] = dict(
 PROPS['C08'] = dict(
     title='totality',
     units=['pt', 'wrap', 'iter', 'conv', 'derive', 'getstr', 'arms', 'depth', 'pphelp', 'display', 'prologue', 'split', 'loc', 'rtmu', 'glue', 'kwstack'],
-    engines=[dict(module='gvc.engine', args=dict(analyses=('panics', 'faithful', 'nullable')))],
+    engines=[dict(module='gvc.engine', args=dict(analyses=('panics', 'faithful', 'nullable', 'frame')))],
     shims=['A-btree', 'A-str', 'A-path/fs', 'A-node', 'A-vec', 'A-nom', 'A-glue'],
     design='DESIGN.md 3/C08',
     technique='Verus: absence of overflow, out-of-range indexing, failed assert/unwrap in every function under contract; File/ReadUtf8/Include mapping of the wrappers; classified inventory of all panic sites',
@@ -214,13 +214,13 @@ PROPS['C19'] = dict(
 )
 KANI = dict(module='vx.kanieng', tier='thorough')
 PROPS['C03']['engines'] = [KANI, dict(module='vx.boundeng')]
-PROPS['C18']['engines'] = [dict(module='gvc.engine', args=dict(analyses=('pptotal', 'assumed'))), REPLAY]
+PROPS['C18']['engines'] = [dict(module='gvc.engine', args=dict(analyses=('pptotal', 'lexers', 'assumed'))), REPLAY]
 PROPS['C05']['engines'] = [dict(module='vx.boundeng'), dict(module='gvc.engine', args=dict(analyses=('shadow', 'kwsites', 'assumed')))]
 PROPS['C11']['engines'] = [dict(module='gvc.engine', args=dict(analyses=('shadow', 'kwsites', 'assumed')))]
 PROPS['C10']['engines'] = [dict(module='gvc.engine', args=dict(analyses=('assumed',)))]
 PROPS['C09']['engines'] = [dict(module='gvc.engine', args=dict(analyses=('assumed',)))]
 PROPS['C04']['engines'] = [dict(module='gvc.engine', args=dict(analyses=('frame', 'assumed', 'kwsites', 'pptotal'))), REPLAY]
-PROPS['C06']['engines'] = [dict(module='gvc.engine', args=dict(analyses=('pptotal', 'faithful', 'shadow', 'assumed'))), dict(module='vx.boundeng'), REPLAY]
+PROPS['C06']['engines'] = [dict(module='gvc.engine', args=dict(analyses=('pptotal', 'lexers', 'faithful', 'shadow', 'assumed'))), dict(module='vx.boundeng'), REPLAY]
 
 # ---- premise closure -----------------------------------------------------------------------------------------------------
 # Verification is modular: a unit verifies its functions against the CONTRACTS of their callees.  Those contracts are proved in
